@@ -1116,6 +1116,14 @@ def _judge_concat_refit(sc):
     if not ok:
         return _viol("copy:exception", "copying raises: %s" % c, sc)
     ca, cb = [n.name for n in c.nodes if n.name.startswith(na + "-") or n.name == na][0], [n.name for n in c.nodes if n.name.startswith(nb)][0]
+    if sc["fit_before"]:
+        # the copy of a TRAINED model, used as it is: same outputs as the original on the same name-keyed inputs
+        ok0, r0 = _try(lambda: m.run({na: Xa.copy(), nb: Xb.copy()}, stateful=False))
+        ok1, r1 = _try(lambda: c.run({ca: Xa.copy(), cb: Xb.copy()}, stateful=False))
+        if ok0 and (not ok1 or np.asarray(r0).shape != np.asarray(r1).shape or not np.allclose(r0, r1, rtol=1e-8, atol=1e-8)):
+            return _viol("copy:trained-fan-in-model:outputs-differ", "the %s copy of a trained [%s, %s] >> readout model %s on the inputs the original was trained on"
+                         % (sc["how"], na, nb, "raises %s" % r1 if not ok1 else "returns other outputs than the original (max abs difference %.3g: the parents reach "
+                            "the readout in another order)" % float(np.max(np.abs(np.asarray(r0) - np.asarray(r1))))), sc)
     oko, ro = _try(lambda: (m.fit({na: Xa.copy(), nb: Xb.copy()}, Y.copy()), m.run({na: Xa.copy(), nb: Xb.copy()}))[1])
     if not oko:
         return None
@@ -1285,7 +1293,8 @@ SPECIALS = ([{"family": "online", "node": nd, "trained": tr, "how": how} for nd 
             + [{"family": "legacyact"}]
             + [{"family": "concatrefit", "how": how, "names": nm, "widths": w, "fit_before": fbf}
                for how, nm, w, fbf in (("deepcopy", ["in", "in2"], [2, 3], False), ("pickle", ["in", "in2"], [2, 2], True),
-                                       ("deepcopy", ["R-1", "R-10"], [2, 2], False), ("deepcopy", ["a", "b"], [2, 3], True))])
+                                       ("deepcopy", ["R-1", "R-10"], [2, 2], False), ("deepcopy", ["a", "b"], [2, 3], True),
+                                       ("deepcopy", ["in", "in2"], [2, 3], True), ("pickle", ["R-1", "R-10"], [2, 3], True))])
 
 
 LEGACY_GRID = [dict(bias=bz, sparse=sp, fb=fb, trained=tr, dout=do)
